@@ -22,6 +22,42 @@ ExtractClause(S, U, root) ==
     [] \E k \in SS : Pumps(SS \ {k}, root) -> "UnproductiveIfAnySingleRuleIsRemoved"
     [] (\E k \in SS : k.b = "REVERSE") /\ Pumps({k \in UU : k.b # "REVERSE"}, root) -> "ReverseRulesOnlyWhenNeeded"
     [] OTHER -> "ok"
+\* ---- implementation-shaped: ForestRuleExtractor._minimize -------------------------------------------
+\* byBucket: function bucket name -> sequence of the keys of that bucket in the pumping sub-universe, in insertion
+\* order.  Buckets are minimised in the order REVERSE, NORMAL, EQUIV, VERIFICATION; while one is minimised the
+\* others count fully (the ones already minimised are empty by then, their needed keys are in `needed`).
+MinimizeOrder == <<"REVERSE", "NORMAL", "EQUIV", "VERIFICATION">>
+SeqSetK(s) == {s[i] : i \in 1..Len(s)}
+OthersOf(bb, key) == UNION {SeqSetK(bb[k]) : k \in DOMAIN bb \ {key}}
+RECURSIVE FirstLoop(_, _, _, _, _)
+\* returns maybe_useful after the first loop of _minimize_key
+FirstLoop(minimizing, maybe, needed, others, root) ==
+  IF minimizing = <<>> THEN maybe
+  ELSE IF Pumps(SeqSetK(needed) \cup SeqSetK(maybe) \cup others, root) THEN maybe          \* minimizing.clear(); break
+  ELSE LET i == Min({j \in 1..Len(minimizing) : Pumps(SeqSetK(needed) \cup SeqSetK(maybe) \cup others \cup SeqSetK(SubSeq(minimizing, 1, j)), root)})
+       IN FirstLoop(SubSeq(minimizing, 1, i - 1), Append(maybe, minimizing[i]), needed, others, root)
+RECURSIVE SecondLoop(_, _, _, _)
+SecondLoop(maybe, needed, others, root) ==
+  IF maybe = <<>> THEN needed
+  ELSE LET rk == maybe[Len(maybe)]  rest == SubSeq(maybe, 1, Len(maybe) - 1) IN
+       IF ~Pumps(SeqSetK(needed) \cup SeqSetK(rest) \cup others, root)
+       THEN SecondLoop(rest, Append(needed, rk), others, root) ELSE SecondLoop(rest, needed, others, root)
+RECURSIVE MinimizeFrom(_, _, _, _)
+MinimizeFrom(bb, needed, k, root) ==
+  IF k > Len(MinimizeOrder) THEN needed
+  ELSE LET key == MinimizeOrder[k]
+           others == OthersOf(bb, key)
+           maybe == FirstLoop(bb[key], <<>>, needed, others, root)
+           needed2 == SecondLoop(maybe, needed, others, root)
+       IN MinimizeFrom([bb EXCEPT ![key] = <<>>], needed2, k + 1, root)
+\* the pumping sub-universe of U, sorted by bucket
+ByBucket(U, root) ==
+  LET UU == {K4(U[i]) : i \in 1..Len(U)}
+      R == RulesOf(UU)  C == ClassesOf(R) \cup {root}  a == Answer(R, C)
+      stable(k) == a[k.p] = -1 /\ \A j \in 1..Len(k.ch) : a[k.ch[j]] = -1
+  IN [b \in {"REVERSE", "NORMAL", "EQUIV", "VERIFICATION"} |-> SelectSeq([i \in 1..Len(U) |-> K4(U[i])], LAMBDA k : k.b = b /\ stable(k))]
+Minimize(U, root) == MinimizeFrom(ByBucket(U, root), <<>>, 1, root)
+
 \* The theorem the library's sanity check relies on: a minimal productive set is functional and closed
 MinimalProductive(SS, root) == Pumps(SS, root) /\ \A k \in SS : ~Pumps(SS \ {k}, root)
 FunctionalSet(SS) == \A k1, k2 \in SS : k1.p = k2.p => k1 = k2
